@@ -175,6 +175,37 @@ pub fn run(rec: &mut Recorder, w: &mut World, tier: &str, seed: u64) {
             if hi == 0 { rec.sample(format!("[{}] {}", c.name, descr.iter().take(8).cloned().collect::<Vec<_>>().join(" ; "))); }
         }
     }
+    // ---- a reload that fails (in the adapter after some rules, or in the link build on a rule too short to link) while the
+    //      enforcer stores no grouping rule at all, or only some: the rules that were stored come back, and the graph must be
+    //      the one they imply - nothing the aborted load linked may stay ----
+    let n_fail = (if tier == "thorough" { 300 } else { 30 }) * rec.budget as usize;
+    for c in cfgs.iter().filter(|c| !c.shared_names) {
+        for fi in 0..n_fail {
+            rec.begin();
+            new_enforcer(rec, w, &c.model, "memory", &[], "", false);
+            let mut descr = vec![];
+            // two thirds of the histories start the failing reload with no grouping rule stored
+            if fi % 3 == 2 { for _ in 0..1 + rng.below(3) { let (gk, gu) = rng.pick(&c.g_rules).clone(); let op = MOp::Add(s("g"), gk, rng.pick(&gu).clone()); rec.exec(w, &op.line()); descr.push(op.line().replace('\t', " ")); } }
+            if !c.p_rules.is_empty() && rng.chance(1, 2) { let op = MOp::Add(s("p"), s("p"), rng.pick(&c.p_rules).clone()); rec.exec(w, &op.line()); descr.push(op.line().replace('\t', " ")); }
+            let mut other: Vec<Vec<String>> = vec![];
+            for (gk, uni) in &c.g_rules { for _ in 0..1 + rng.below(3) { let mut l = vec!["g".to_string(), gk.clone()]; l.extend(rng.pick(uni).clone()); if !other.contains(&l) { other.push(l); } } }
+            let out = if fi % 2 == 0 {
+                // the last delivered grouping rule is too short to link
+                other.push(vec!["g".to_string(), c.g_rules[c.g_rules.len() - 1].0.clone(), "zz".to_string()]);
+                rec.exec(w, &format!("e.setadapter\tmemory\t{}\t", enc_lists(&other)))
+            } else {
+                let k = 1 + rng.below(other.len());
+                rec.exec(w, &format!("e.setadapter\tmemory\t{}\t\tfail{}", enc_lists(&other), k))
+            };
+            descr.push(format!("set_adapter({:?}) -> {}", other, out));
+            rec.count(&format!("failing-reload:{}", if out.starts_with("err") { "failed" } else { "went-through" }));
+            let before = snapshot(rec, w, c);
+            let b = rec.exec(w, "e.build");
+            let after = snapshot(rec, w, c);
+            if b == "ok" && before != after { rec.fail("stale-role-links", format!("[{}] build_role_links changed decisions / role queries after: {} :: before {} after {}", c.name, descr.join(" ; "), before, after)); }
+            rec.nontrivial_case(&format!("failing-reload|{}|{}", c.name, descr.join("|")));
+        }
+    }
     // ---- construction: the model handed to the constructor already holds rules (an adapter-level filtered
     //      load) and the adapter reports is_filtered, so the constructor does not load: the graph must still
     //      reflect the grouping rules the enforcer now stores ----
